@@ -426,8 +426,11 @@ def coq_eval_mismatches(prop_id, imports, triples, shard=250, timeout=2400):
     sh(cmd, timeout + 60)
     bad = []
     for name in names:
-        rc = open(os.path.join(d, name + ".rc")).read().strip()
-        out = open(os.path.join(d, name + ".out")).read()
+        try:
+            rc = open(os.path.join(d, name + ".rc")).read().strip()
+            out = open(os.path.join(d, name + ".out")).read()
+        except OSError:
+            raise CoqRunError(f"model evaluation of {name} did not finish within {timeout} s")
         if rc != "0":
             raise CoqRunError(f"model evaluation failed in {name} (rc={rc}):\n{out[-3000:]}")
         m = re.search(r"the_result\s*=\s*(.*?)\s*:\s*list N", out, re.S)
